@@ -265,14 +265,15 @@ def _parse_int(expr: cst.BaseExpression) -> int | None:
     Returns:
         The integer value, or ``None`` if the expression is not parseable.
     """
+    # Base 0 follows the rules of integer literals (``0x1F``, ``0o17``, ``0b101``, ``1_000``).
     if isinstance(expr, cst.Integer):
-        return int(expr.value)
+        return int(expr.value, 0)
     if (
         isinstance(expr, cst.UnaryOperation)
         and isinstance(expr.operator, cst.Minus)
         and isinstance(expr.expression, cst.Integer)
     ):
-        return -int(expr.expression.value)
+        return -int(expr.expression.value, 0)
     return None
 
 
